@@ -33,7 +33,8 @@ theorem handler_returns {Q : DevHandler → Prop} (QS : QuietSet Q) (s x t : Sim
   have tir : t.iregs = x.iregs := by have := congrArg (·.2.1) tctl; simpa only [ctl] using this
   have tmc : t.mcr = x.mcr := by have := congrArg (·.2.2.2.1) tctl; simpa only [ctl] using this
   refine ⟨f, hx, ⟨fpc, fpsr, ?_, ?_, ?_, ?_, by rw [ffl, tfl, hf], by rw [ffn, tfn, hfn]; omega,
-    fun hp => by rw [(fk hp).2, tss, hss]; simp [hp], by rw [fir, tir, hir], by rw [fmc, tmc, hmcr]⟩, fdev, fro⟩
+    fun hp => by rw [(fk hp).2, tss, hss]; simp [hp], by rw [fir, tir, hir], by rw [fmc, tmc, hmcr],
+    fun hp => by rw [(fu hp).1, tss, hss]; simp [hp]⟩, fdev, fro⟩
   · intro r hr hr0; rw [fro r hr, tro r hr hr0, ro r hr]
   · cases hp : PSR.privileged s.psr
     · rw [(fu hp).1, tss, hss]; simp [hp]
